@@ -744,6 +744,13 @@ func (ce *callEngine) callNativeFunc(ctx context.Context, m *wasm.ModuleInstance
 			if err := m.FailIfClosed(); err != nil {
 				panic(err)
 			}
+			// m is the module of the immediate caller. Cancellation and deadlines close the module whose
+			// function the host called, which is a different one in a nested cross-module call.
+			if root := ce.f.moduleInstance; root != m {
+				if err := root.FailIfClosed(); err != nil {
+					panic(err)
+				}
+			}
 			frame.pc++
 		case operationKindUnreachable:
 			panic(wasmruntime.ErrRuntimeUnreachable)
